@@ -15,6 +15,7 @@ import (
 	"seehuhn.de/go/postscript/type1"
 
 	"verif/harness/ev"
+	"verif/harness/iofault"
 	"verif/harness/known"
 	"verif/harness/t1gen"
 	"verif/harness/t1ref"
@@ -24,12 +25,15 @@ type c06case struct {
 	Data     []byte      `json:"data"`
 	Expected *type1.Font `json:"expected"`
 	Summary  string      `json:"summary"`
+	// Reader: the concrete reader type the file is handed over in
+	// (iofault.ReaderKinds); "" = bytes.Reader
+	Reader string `json:"reader,omitempty"`
 }
 
 var tol = t1gen.Tol{CoordRel: 1e-9, Coord: 1e-9}
 
 func check(c *c06case) string {
-	got, err := type1.Read(bytes.NewReader(c.Data))
+	got, err := type1.Read(iofault.NewReader(c.Reader, c.Data))
 	if err != nil {
 		return fmt.Sprintf("type1.Read rejects a conforming font: %v", err)
 	}
@@ -147,7 +151,7 @@ func seacBugs(rec *ev.Rec) (enc, closep, width bool) {
 func TestP1Fonts(t *testing.T) {
 	rec := ev.New("C06", "fonts")
 	defer rec.Finish(t)
-	rec.Rule("model fonts (1-9 glyphs incl. .notdef; contours of moves/lines/curves with integer or rational `p q div` deltas; stems as hstem/vstem lists or one stem3 per direction; sbw; flex after move/line/curve; hint replacement; dotsection; accented composites per DESIGN.md 10.1; StandardEncoding or explicit encoding incl. codes naming absent glyphs; FontInfo strings over all bytes; private values present/absent; four creation-date layouts) x layout drawn separately (PFA/binary/PFB/unencrypted, lenIV absent or 0..8, RD/ND/NP vs -| |- |, hex case/line width/white space, 4 drawn eexec cipher bytes, h/v command forms, 5-byte and quotient number spellings, subroutine factoring nested <= 9, flex/hint replacement through Subrs 0-3 or inline, PFB segment splitting, comments and line-end variants). Oracle: type1.Read(bytes) compared field by field with the model (coordinates exact for integers, 1e-9 for rationals). Non-trivial: layout or model uses >= 1 of {subrs, flex, hint replacement, seac, sbw, div, lenIV != 4, custom encoding, PFB or binary container}; distinct by the bytes of the file.")
+	rec.Rule("model fonts (1-9 glyphs incl. .notdef; contours of moves/lines/curves with integer or rational `p q div` deltas; stems as hstem/vstem lists or one stem3 per direction; sbw; flex after move/line/curve; hint replacement; dotsection; accented composites per DESIGN.md 10.1; StandardEncoding or explicit encoding incl. codes naming absent glyphs; FontInfo strings over all bytes; private values present/absent; four creation-date layouts) x layout drawn separately (PFA/binary/PFB/unencrypted, lenIV absent or 0..8, RD/ND/NP vs -| |- |, hex case/line width/white space, 4 drawn eexec cipher bytes, h/v command forms, 5-byte and quotient number spellings, subroutine factoring nested <= 9, flex/hint replacement through Subrs 0-3 or inline, PFB segment splitting, comments and line-end variants). The file reaches type1.Read as a bytes.Reader or, for a quarter of the cases, behind another concrete reader type (strings.Reader, bytes.Buffer, bufio.Reader, a reader without extra methods, a bytes.Reader positioned behind other data that starts with the PFB marker byte, a one-byte io.ByteReader). Oracle: type1.Read(bytes) compared field by field with the model (coordinates exact for integers, 1e-9 for rationals). Non-trivial: layout or model uses >= 1 of {subrs, flex, hint replacement, seac, sbw, div, lenIV != 4, custom encoding, PFB or binary container}; distinct by the bytes of the file.")
 	rec.Assume("t1ref.Write is validated on every case by t1ref.Parse (harness writer -> harness parser identity); a disagreement aborts the run as a harness bug")
 	flexBug := flexLineBug(rec)
 	seacEnc, seacClose, seacWidth := seacBugs(rec)
@@ -165,6 +169,10 @@ func TestP1Fonts(t *testing.T) {
 		data := t1ref.Write(m, l)
 		selfCheck(m, data)
 		c := &c06case{Data: data, Expected: t1gen.Expected(m), Summary: m.Summary()}
+		if rapid.IntRange(0, 3).Draw(t, "otherreader") == 0 {
+			c.Reader = rapid.SampledFrom(iofault.ReaderKinds).Draw(t, "readerkind")
+			rec.Class("reader:" + c.Reader)
+		}
 		rec.Eval(1)
 		nt := false
 		for k := range lfeat {
